@@ -224,13 +224,27 @@ Example C01_recursive_filter_example :
     [VObj [("a", VNum (num_of_Z 3))]; VObj [("a", VNum (num_of_Z 1))]; VObj [("a", VNum (num_of_Z 2))]]%string.
 Proof. cbv zeta. split; [vm_compute; reflexivity|]. split; vm_compute; reflexivity. Qed.
 
-(* the comparison filter with blanks around its operator (CmpSpace.v): `$[?(@.a  >= 2)]` selects as `$[?(@.a>=2)]` does *)
+(* the comparison filter with blanks (CmpSpace.v): `$[?( @.a  >= 2 )]` selects as `$[?(@.a>=2)]` does *)
 Example C01_spaced_comparison_example :
   let pf := fun s : string => if String.eqb s "2" then Some (num_of_Z 2) else None in
   let rm := fun _ _ : string => false in
   let doc := VArr [VObj [("a", VNum (num_of_Z 1))]; VObj [("a", VJNum "3" (num_of_Z 3))]; VObj [("a", VNum (num_of_Z 2))]]%string in
-  let path := [FCS [RPlain (SDot [97%N])] 2 OGe 1 [50%N]] in
-  fchain_path path = [36; 91; 63; 40; 64; 46; 97; 32; 32; 62; 61; 32; 50; 41; 93]%N /\
+  let path := [FCS [RPlain (SDot [97%N])] 1 2 OGe 1 1 [50%N]] in
+  fchain_path path = [36; 91; 63; 40; 32; 64; 46; 97; 32; 32; 62; 61; 32; 50; 32; 41; 93]%N /\
   forallb fstep_ok path = true /\ forallb (fstep_okp pf (fun _ => true)) path = true /\
   map snd (nav_allf pf rm doc path ([], doc)) = [VObj [("a", VJNum "3" (num_of_Z 3))]; VObj [("a", VNum (num_of_Z 2))]]%string.
 Proof. cbv zeta. do 3 (split; [vm_compute; reflexivity|]). vm_compute. reflexivity. Qed.
+
+(* existence filters with blanks (FiltSpace.v): `$[?( !  @.a )]` selects as `$[?(!@.a)]` does *)
+Example C01_spaced_existence_example :
+  let pf := fun s : string => @None num in
+  let rm := fun _ _ : string => false in
+  let doc := VArr [VObj [("a", VNum (num_of_Z 1))]; VObj [("b", VNum (num_of_Z 2))]; VNum (num_of_Z 3)]%string in
+  let pneg := [FES true 1 2 [RPlain (SDot [97%N])] 1] in
+  let ppos := [FES false 2 0 [RPlain (SDot [97%N])] 3] in
+  fchain_path pneg = [36; 91; 63; 40; 32; 33; 32; 32; 64; 46; 97; 32; 41; 93]%N /\
+  fchain_path ppos = [36; 91; 63; 40; 32; 32; 64; 46; 97; 32; 32; 32; 41; 93]%N /\
+  forallb fstep_ok pneg = true /\ forallb fstep_ok ppos = true /\
+  map snd (nav_allf pf rm doc pneg ([], doc)) = [VObj [("b", VNum (num_of_Z 2))]; VNum (num_of_Z 3)]%string /\
+  map snd (nav_allf pf rm doc ppos ([], doc)) = [VObj [("a", VNum (num_of_Z 1))]]%string.
+Proof. cbv zeta. do 5 (split; [vm_compute; reflexivity|]). vm_compute. reflexivity. Qed.
